@@ -468,7 +468,7 @@ func runSchedCase(c *h.Ctx, r *h.Report, cs schedCase) (disagreed bool) {
 // optionally right after a restart, with the publish placed between registration and the history
 // scan in a good share of the schedules.
 func genJunctionCase(rr *h.Rand) schedCase {
-	cs := schedCase{Kind: "bolt", Cap: h.Pick(rr, []int{2, 3, 1000}), Size: h.Pick(rr, []int{0, 0, 0, 1, 2})}
+	cs := schedCase{Kind: "bolt", Cap: h.Pick(rr, []int{1, 1, 2, 3, 1000}), Size: h.Pick(rr, []int{0, 0, 0, 1, 2})}
 	nextID := 1
 	var first schedPhase
 	hist := rr.Intn(4)
@@ -488,7 +488,7 @@ func genJunctionCase(rr *h.Rand) schedCase {
 		ph.Subs = []schedSub{{Topics: []int{0}, Req: req}}
 		ph.Ops = []schedOp{{Op: "add", Sub: 0}, {Op: "dispatch", ID: nextID, Topic: 0}}
 		nextID++
-		if rr.Bool() {
+		for extra := rr.Intn(3); extra > 0; extra-- {
 			ph.Ops = append(ph.Ops, schedOp{Op: "dispatch", ID: nextID, Topic: 0})
 			nextID++
 		}
@@ -502,6 +502,11 @@ func genJunctionCase(rr *h.Rand) schedCase {
 		}
 		for i := 0; i < 14; i++ {
 			ph.Schedule = append(ph.Schedule, 1)
+		}
+		if len(ph.Ops) > 2 && ph.Ops[2].Op == "dispatch" && rr.Bool() {
+			for i := 0; i < 14; i++ { // a second publisher also runs before the subscriber goes live
+				ph.Schedule = append(ph.Schedule, 2)
+			}
 		}
 		for i := 0; i < 40; i++ {
 			ph.Schedule = append(ph.Schedule, rr.Intn(len(ph.Ops)))
